@@ -97,6 +97,8 @@ pub struct Cfg {
     pub vt: bool,
     /// enforce the height-overflow clauses (C19)
     pub height_clauses: bool,
+    /// every log line has the same text (count is then the only thing that distinguishes them)
+    pub same_log_text: bool,
 }
 
 impl Cfg {
@@ -123,13 +125,14 @@ impl Cfg {
             log_len: 0,
             vt: false,
             height_clauses: false,
+            same_log_text: false,
         }
     }
 
     pub fn describe(&self) -> String {
         format!(
-            "{} W={} H={} hz={:?} two_line={} max_bars={} fin_rot={} root={:?} msgs={:?} log_len={}",
-            self.name, self.w, self.h, self.hz, self.two_line, self.max_bars, self.fin_rot, self.root, self.msgs.iter().map(|m| m.len()).collect::<Vec<_>>(), self.log_len
+            "{} W={} H={} hz={:?} two_line={} max_bars={} fin_rot={} root={:?} msgs={:?} log_len={} same_log={}",
+            self.name, self.w, self.h, self.hz, self.two_line, self.max_bars, self.fin_rot, self.root, self.msgs.iter().map(|m| m.len()).collect::<Vec<_>>(), self.log_len, self.same_log_text
         )
     }
 
@@ -215,6 +218,9 @@ struct Ref {
 
 impl Cfg {
     fn log_text(&self, n: usize, tag: &str) -> String {
+        if self.same_log_text {
+            return "retrying".to_string();
+        }
         let mut s = format!("{}{}", tag, n);
         while s.len() < self.log_len {
             s.push('x');
